@@ -83,6 +83,19 @@ func c16Padding(c *eng.Ctx, r *eng.Report) {
 						okGuard = true
 					}
 				}
+				// the same test spelled the other way round: 80 <= len(pi), or 80-len(pi) <= 0
+				if m, isM := cd.Cmp(); isM && m.Op == token.LEQ {
+					if k, isK := eng.ConstInt(m.X); isK && k == 80 && strings.Contains(eng.Desc(m.Y), "builtin:len(pi)") {
+						okGuard = true
+					}
+					if z, isZ := eng.ConstInt(m.Y); isZ && z == 0 {
+						if bo, isB := eng.Unwrap(m.X).(*ssa.BinOp); isB && bo.Op == token.SUB {
+							if k, isK := eng.ConstInt(bo.X); isK && k == 80 && strings.Contains(eng.Desc(bo.Y), "builtin:len(pi)") {
+								okGuard = true
+							}
+						}
+					}
+				}
 			}
 			if !okGuard {
 				bad = append(bad, "the proof is returned unchanged without the `len(pi) >= 80` test")
@@ -535,8 +548,8 @@ func c16Qn(c *eng.Ctx, r *eng.Report) {
 				if strings.Contains(d, "validateProve(") && cd.True {
 					okP = true
 				}
-				if m, isM := cd.Cmp(); isM && m.Op == token.EQL && strings.HasSuffix(eng.Desc(m.X), ".TotalQN") {
-					okQ = true
+				if m, isM := cd.Cmp(); isM && m.Op == token.EQL && (strings.HasSuffix(eng.Desc(m.X), ".TotalQN") || strings.HasSuffix(eng.Desc(m.Y), ".TotalQN")) {
+					okQ = true // either side: equality is symmetric
 				}
 			}
 		}
